@@ -47,9 +47,11 @@ structure Tr where
   ent : Entry          -- key, value read, `versionInDB`
   nval : Int           -- value the item carries locally (written by add / update)
   nver : Nat           -- version the item carries locally (`item.Version`)
-  phys : Nat := 0      -- remove only: the item the LOCAL B-tree took out when that is not `item` (0 = `item`);
-                       -- `RemoveCurrentItem` on an item of an inner node swaps in the in-order successor and hands
-                       -- the SUCCESSOR to the tracker. A refetch replays the tracker, so `phys` is forgotten there.
+  phys : Nat := 0      -- LEGACY (the tree before repo commit a8e6b837; always 0 since): remove only: the item the
+                       -- LOCAL B-tree took out when that is not `item`. `RemoveCurrentItem` on an item of an inner
+                       -- node swapped in the in-order successor and handed the SUCCESSOR to the tracker; a refetch
+                       -- replays the tracker, so `phys` was forgotten there (finding C02-F2, witness
+                       -- `Sop.C02.legacy_successor_alias`). The repaired code tracks the requested item.
   gen : Nat := 0       -- lock id generation
   own : Bool := false  -- `isLockOwner`
   live : Bool := true  -- still registered in the item tracker (adds drop out after a refetch of an in-node store)
@@ -62,7 +64,7 @@ inductive Op where
   | add (id : Nat) (k : Int) (v : Int)
   | addne (id : Nat) (k : Int) (v : Int)
   | ups (id : Nat) (k : Int) (v : Int)
-  | rm (k : Int) (alias : Nat := 0)   -- alias ≠ 0: the tracker registers item `alias` (environment: B-tree shape)
+  | rm (k : Int) (alias : Nat := 0)   -- alias ≠ 0 (LEGACY, see `Tr.phys`): the tracker registers item `alias`
   | touch (k : Int)                   -- UpdateKey with an equal key: an update that keeps the value
 deriving Repr, Inhabited
 
